@@ -14,7 +14,7 @@ from common import REPO_ROOT, VERIF_ROOT, main_protocol
 
 ALPHABET = ["nop", "lda", "lda.w", "lda.", "#", "0x10", "12", "0b1", "0", "(", ")", "[", "]", ",x", ",", "x", "label:", "name", "name.sub", ":=", "=", "*=", "@=",
             "{", "}", "{{", "}}", ".macro", ".if", ".for", "else", ".scope", ".db", ".dw", ".text", ".ascii", ".table", ".include", ".incbin", ".map", ".struct",
-            "'abc'", "'abc", "'", ";", "; c", "/*", "*/", "/* c */", "+", "-", "*", "&", "|", "~", "<<", ">>", "==", "!=", "<", ">", "\n", " ", "\t", "\0", "$", "\\", ".", "rts ; c",
+            "'abc'", "'abc", "'", ";", "; c", "/*", "*/", "/* c */", "/*/", "/*/ c", "/**", "/*/*", "+", "-", "*", "&", "|", "~", "<<", ">>", "==", "!=", "<", ">", "\n", " ", "\t", "\0", "$", "\\", ".", "rts ; c",
             "bra", "m(", "m()", "1,", "identifier=1", "bank_range=0,1", ".q", "byte",
             # characters outside ASCII: letters (str.isalpha), digits (str.isdigit / isnumeric), spaces (str.isspace), others
             "\u00e9", "caf\u00e9", "\u03bb:", "\u00fc", "\u0661", "\u00b2", "\u00a0", "\u2028", "\u00a7", "\ufeff", "\U0001f600"]
@@ -118,9 +118,33 @@ def gen(tier, rng):
     return seqs
 
 
+def ensure_table():
+    """the table file the deep-nesting inputs load: a fixed name in the temp directory, (re)created on demand so that a replay finds it too"""
+    import tempfile
+    path = os.path.join(tempfile.gettempdir(), "vfC15-table.tbl")
+    with open(path, "w") as f:
+        f.write("41=A\n42=B\n43=C\n")
+    return path
+
+
+def deep(tbl):
+    """deeply nested scopes (40-64 levels of blocks / named scopes) around statements that look something up through the whole chain: a table, a symbol,
+    a macro -- the work per lookup grows with the depth, not exponentially in it"""
+    out = []
+    for depth in (24, 40, 64):
+        for opener in ("{", ".scope s%d {"):
+            opens = "".join((opener % i if "%" in opener else opener) + "\n" for i in range(depth))
+            closes = "}\n" * depth
+            out.append(f"*=0x008000\n.table '{tbl}'\n" + opens + ".text 'ABC'\n" + closes)
+            out.append("*=0x008000\nouter := 5\n.macro m(v) {\n.db v\n}\n" + opens + ".db outer\nm(outer)\n.if outer {\nnop\n}\n" + closes)
+            out.append("*=0x008000\n" + opens + ".text 'ABC'\n.db missing_name\n" + closes)
+    return out
+
+
 def run(tier, seed):
     rng = random.Random(seed)
     seqs = gen(tier, rng)
+    seqs += deep(ensure_table())
     old = os.getcwd()
     os.chdir("/tmp")
     try:
@@ -140,11 +164,12 @@ def run(tier, seed):
     return {"evaluations": len(seqs), "distinct_nontrivial": len(set(seqs)),
             "rule": "token-alphabet sequences (78 snippets covering every token kind, unterminated strings/comments, NUL, junk): all sequences of length <= 2 "
                     "(thorough: plus 12% of length 3) with space/newline separators, seeded sequences of 3-12 snippets, every truncation / line deletion / line "
-                    "duplication / single-character corruption of 5 valid programs, guarded and unguarded (single / double / mutual / code-block / loop) self-applying macros, programs whose expansion-time symbol reads sit 2-6 scopes below the definitions (or read undefined names from there), byte soup; each under a 4 s watchdog; distinct = distinct sources",
+                    "duplication / single-character corruption of 5 valid programs, guarded and unguarded (single / double / mutual / code-block / loop) self-applying macros, table / symbol / macro lookups from 24-64 nested scopes, programs whose expansion-time symbol reads sit 2-6 scopes below the definitions (or read undefined names from there), byte soup; each under a 4 s watchdog; distinct = distinct sources",
             "samples": [seqs[5], seqs[len(seqs) // 2][:80]], "failures": failures, "outcomes": {k: sum(1 for _, r in results if r.split(':')[0] == k) for k in ("ok", "error", "exception", "TIMEOUT")}}
 
 
 def replay(payload):
+    ensure_table()
     r = run_one(payload["src"], limit=6)
     return {"failed": r == "TIMEOUT", "observed": r}
 
